@@ -1,4 +1,11 @@
 #!/bin/sh
-# one reverse patch per fix: commit of /repo -> /verif/mutants/revert_<hash>.diff (each is a monitor-validation mutant)
-cd /repo && for c in $(git log --format=%h --grep '^fix:' ); do git diff $c $c^ > /verif/mutants/revert_$c.diff; echo "$c $(git log -1 --format=%s $c)"; done > /verif/mutants/REVERTS.txt
+# one reverse patch per fix: commit of /repo -> /verif/mutants/revert_<hash>.diff (each is a monitor-validation mutant).
+# Existing files are kept: several were rebased by hand so that they apply to HEAD with a plain `git apply` (a later fix
+# touched the same lines); a new one that does not apply to HEAD is reported.
+cd /repo && for c in $(git log --format=%h --grep '^fix:' ); do
+  f=/verif/mutants/revert_$c.diff
+  [ -f $f ] || git diff $c $c^ > $f
+  git apply --check $f 2>/dev/null || echo "DOES NOT APPLY TO HEAD: $f" >&2
+  echo "$c $(git log -1 --format=%s $c)"
+done > /verif/mutants/REVERTS.txt
 cat /verif/mutants/REVERTS.txt
